@@ -256,6 +256,40 @@ def ob_refine_args(h):
     h.check("result_has_the_kept_points", len(out) == n_kept)
 
 
+def ob_retry(h):
+    """The retry loop of _get_piecewise_breakpoints (callees replaced by recorders): while the refined profile misses the requested
+    deviation, the simplification is repeated with a strictly TIGHTER tolerance, the refinement bound follows it, at most ten rounds
+    are made and the result is that of the last round."""
+    import numpy as np
+    overshoots = h.choice("rounds_that_overshoot", [0, 1, 2, 3, 12])
+    hot = h.choice("is_hot_stream", [True, False])
+    eps = 0.1
+    rdp_eps, refine_eps, outs = [], [], []
+    kept = [[float(i), float(i)] for i in range(12)]
+
+    def f_rdp(curve, epsilon):
+        rdp_eps.append(epsilon)
+        return np.array(kept)
+
+    def f_refine(curve, pw_points, eps_lb=0.0, hot_stream=True):
+        refine_eps.append(eps_lb)
+        res = np.array(kept) + len(refine_eps)            # a recognisable result per round
+        outs.append(res)
+        return res, (1.0 if len(refine_eps) <= overshoots else 0.0)
+    old = (sl._rdp, sl._refine_pw_points_for_heating_or_cooling)
+    sl._rdp, sl._refine_pw_points_for_heating_or_cooling = f_rdp, f_refine
+    try:
+        out = sl._get_piecewise_breakpoints(np.array(kept), eps, hot)
+    finally:
+        sl._rdp, sl._refine_pw_points_for_heating_or_cooling = old
+    rounds = min(overshoots + 1, 10)
+    h.check("one_simplification_and_one_refinement_per_round", len(rdp_eps) == rounds and len(refine_eps) == rounds)
+    h.check("first_round_uses_the_requested_tolerance", abs(rdp_eps[0] - eps) < 1e-15)
+    h.check("every_retry_simplifies_with_a_tighter_tolerance", all(b < a for a, b in zip(rdp_eps, rdp_eps[1:])))
+    h.check("refinement_bound_is_a_tenth_of_the_round_tolerance", all(abs(r - e / 10) < 1e-15 for r, e in zip(refine_eps, rdp_eps)))
+    h.check("result_is_that_of_the_last_round", out is outs[-1] or (np.asarray(out) == outs[-1]).all())
+
+
 def obligations():
     fc = [misc.clean_composite_curve, misc.clean_composite_curve_ends]
     obs = [
@@ -274,6 +308,8 @@ def obligations():
                    expect=("both_end_points_kept",)),
         Obligation("C17.refine.args", ob_refine_args, kind="proof", functions=[sl._get_piecewise_breakpoints], stubs=("_rdp", "_refine_pw_points_for_heating_or_cooling (recorders)"),
                    doc="call-site contract: the one-sided refinement receives is_hot_stream and epsilon / 10"),
+        Obligation("C17.retry", ob_retry, kind="proof", functions=[sl._get_piecewise_breakpoints], stubs=("_rdp", "_refine_pw_points_for_heating_or_cooling (recorders)"),
+                   doc="call-site contract of the retry loop: tighter tolerance per round, at most ten rounds, last result returned"),
         Obligation("C17.fallback", ob_fallback, kind="proof", functions=[sl.get_piecewise_data_points], stubs=("_get_piecewise_breakpoints", "_rdp")),
     ]
     obs += split(Obligation("C17.clean5.b", _ob_clean(5), kind="bounded", tier="thorough", bound="composite curves of 5 points", functions=fc, max_paths=2000000), points=[5])
